@@ -6,6 +6,8 @@ set -u
 ID=$1; SRC=$2; shift 2; CHECKS=${*:-$ID}
 V=/verif; R=/repo
 export GOFLAGS=-mod=mod GOPROXY=off GOSUMDB=off GOTOOLCHAIN=local
+# evidence / replay files of runs on a deliberately broken tree go to scratch, not to the committed directories
+export VERIF_OUT_DIR=$V/.work/seed-out; mkdir -p $VERIF_OUT_DIR
 [ -n "$(git -C $R status --porcelain)" ] && { echo "/repo not clean"; exit 2; }
 demo=$(ls $SRC/demo*_test.go | head -1); dname=$(basename $demo)
 ddir=$R; grep -q "^package smtp" $demo && ddir=$R/smtp
@@ -23,4 +25,3 @@ for c in $CHECKS; do
   echo "$o" | grep "detail: key=" | cut -c1-260 | head -4; echo "exit=$rc"
 done
 git -C $R checkout -- . ; git -C $R clean -fdq
-rm -rf $V/replays/* 2>/dev/null
